@@ -33,10 +33,11 @@ impl RequestUrl {
         let base = url::Url::parse(base)?;
         let url = url::Url::options().base_url(Some(&base)).parse(&self.0)?;
 
-        let search_params = url
-            .query_pairs()
-            .map(|(k, v)| (k.to_string(), v.to_string()))
-            .collect::<ParamsMap>();
+        // `query_pairs` has already percent-decoded keys and values
+        let mut search_params = ParamsMap::new();
+        for (k, v) in url.query_pairs() {
+            search_params.insert_decoded(k.to_string(), v.to_string());
+        }
 
         Ok(Url {
             origin: url.origin().unicode_serialization(),
